@@ -291,6 +291,26 @@ def c20_4(ctx):
     gen = ctx.repo.func(CG + '.sublime.SublimeConfigGenerator.generate')
     z = [c for c in ast.walk(gen.node) if isinstance(c, ast.Call) and unparse(c.func) == 'ZipFile']
     ctx.check(len(z) == 1, 'wellformed:sublime:zip', gen.site(), 'the package is written by ZipFile', f'{len(z)}')
+    # every output file is created afresh: a package regenerated after the ISA changed must not keep members of the old one
+    n_open = 0
+    for fn in ctx.repo.all_functions():
+        if not fn.module.name.startswith('bespokeasm.configgen'):
+            continue
+        for c in ast.walk(fn.node):
+            if not isinstance(c, ast.Call):
+                continue
+            t = unparse(c.func)
+            if t in ('ZipFile', 'zipfile.ZipFile', 'open'):
+                mode = c.args[1] if len(c.args) > 1 else next((k.value for k in c.keywords if k.arg == 'mode'), None)
+                mv = mode.value if isinstance(mode, ast.Constant) else ('r' if mode is None else None)
+                if mv is not None and 'r' in mv and '+' not in mv:
+                    continue
+                n_open += 1
+                ctx.check(mv is not None and mv.rstrip('bt') in ('w', 'x'), f'wellformed:fresh-output:{ctx.short(fn)}:{t}', fn.site(c),
+                          'an output file is opened truncating ("w"): nothing of an earlier generation survives in it',
+                          f'opened with mode {unparse(mode) if mode is not None else None}')
+    if n_open < 4:
+        ctx.err('wellformed:fresh-output', '-', 'at least 4 output files opened by the generators', f'{n_open}')
     ext = [n for n in ast.walk(sb.node) if isinstance(n, ast.Assign) and unparse(n.targets[0]) == "syntax_dict['file_extensions']"]
     ctx.check(len(ext) == 1 and unparse(ext[0].value) == '[self.code_extension]', 'wellformed:sublime:file-extension', sb.site(), 'file_extensions is the configured extension', '; '.join(unparse(e) for e in ext))
     pj = {unparse(n.targets[0]): unparse(n.value) for n in ast.walk(vs.node) if isinstance(n, ast.Assign) and unparse(n.targets[0]).startswith('package_json[')}
@@ -307,6 +327,7 @@ _C = 'configgen/__init__.py'
 _V = 'configgen/vscode/__init__.py'
 _S = 'configgen/sublime/__init__.py'
 MUTANTS = [
+    V('c20-zip-append', _S, "        archive_file = ZipFile(archive_fp, 'w')", "        archive_file = ZipFile(archive_fp, 'a')", 'C20.4'),
     V('c20-discarded-replace', _V, "        color_theme_xml = color_theme_xml.replace('##LANGUAGE_ID##', self.language_id)", "        color_theme_xml.replace('##LANGUAGE_ID##', self.language_id)", 'C20.1'),
     V('c20-no-escape', _C, "join([re.escape(r) for r in regex_list])", "join(regex_list)", 'C20.2'),
     V('c20-escape-wrong-var', _C, "        regex_str = '\\\\b' + '\\\\b|\\\\b'.join([re.escape(r) for r in regex_list]) + '\\\\b'", "        escaped = [re.escape(r) for r in regex_list]\n        ordered = sorted(regex_list, key=len, reverse=True)\n        regex_str = '\\\\b' + '\\\\b|\\\\b'.join(ordered if len(ordered) > 1 else escaped) + '\\\\b'", 'C20.2'),
